@@ -344,10 +344,19 @@ fn z_hist(script: &str) -> String {
         Drop(usize),
         CloneFrom(usize, usize),
     }
+    // how the containers that are live at the end of the script are released
+    #[derive(Clone, Copy, PartialEq)]
+    enum End {
+        Normal,     // dropped one by one, in list order
+        Unwind,     // `x`:  a closure that owns them panics (panic!): they are dropped by unwinding
+        LibPanic,   // `xl`: as `x`, but the panic is the library's own (PayloadKey::new on 31 bytes)
+    }
+    let mut end = End::Normal;
     // parse first, so that the observed part does nothing but the container operations
     let mut toks: Vec<Tok> = Vec::new();
     if script != "-" {
         for t in script.split(',') {
+            assert!(end == End::Normal, "x / xl must be the last token");
             let tok = if let Some(h) = t.strip_prefix("np:") {
                 Tok::NewP(unhex(h))
             } else if t == "ng" {
@@ -356,6 +365,10 @@ fn z_hist(script: &str) -> String {
                 Tok::NewK(unhex(h))
             } else if let Some(h) = t.strip_prefix("nv:") {
                 Tok::NewV(unhex(h))
+            } else if t == "x" || t == "xl" {
+                assert!(end == End::Normal, "x / xl must be the last token");
+                end = if t == "x" { End::Unwind } else { End::LibPanic };
+                continue;
             } else if let Some(ij) = t.strip_prefix('f') {
                 let (i, j) = ij.split_once(':').expect("f<i>:<j>");
                 Tok::CloneFrom(i.parse().expect("bad index"), j.parse().expect("bad index"))
@@ -432,8 +445,27 @@ fn z_hist(script: &str) -> String {
     let nlive = live.len();
     let mid = rec_count();
     // containers still live are released too, in list order
-    for c in live.drain(..) {
-        drop(c);
+    match end {
+        End::Normal => {
+            for c in live.drain(..) {
+                drop(c);
+            }
+        }
+        End::Unwind | End::LibPanic => {
+            // the closure owns the containers; its panic unwinds through their destructors
+            // (std::thread::panicking() is true while they run)
+            let owned = std::mem::take(&mut live);
+            let r = std::panic::catch_unwind(std::panic::AssertUnwindSafe(move || {
+                let held = owned;
+                if end == End::LibPanic {
+                    let _k = PayloadKey::new(&[0u8; 31]); // "Keys must be 32 bytes"
+                } else {
+                    panic!("z_hist x: unwinding with live key containers");
+                }
+                drop(held); // not reached
+            }));
+            assert!(r.is_err(), "the closure was expected to panic");
+        }
     }
     let first = recs_range(0, mid);
     let ovf = overflow();
